@@ -606,6 +606,94 @@ func placeSymlinkRoot(c *Ctx, op string) {
 	c.Distinct(op)
 }
 
+// placeBusyDest: the destination already exists and holds something that cannot be removed — a mount point below it (an
+// earlier mount input at dest/<sub>), an immutable file — when a ware is placed there by copy (cold and warm cache) or by
+// mount. The placement is refused, or the destination shows exactly the ware's fileset: never the ware plus the leftover.
+// Recipe: "place-busydest <mountpoint|immutable> <mode> <cold|warm>".
+func placeBusyDest(c *Ctx, op string) {
+	c.Begin(op)
+	f := strings.Fields(op)
+	what, mode, temp := f[1], f[2], f[3]
+	caseCounter++
+	base := filepath.Join(c.Work, fmt.Sprintf("pbd%d", caseCounter))
+	defer rmrf(base)
+	src, wh, dst, other := filepath.Join(base, "src"), filepath.Join(base, "wh"), filepath.Join(base, "area", "dst"), filepath.Join(base, "other")
+	for _, d := range []string{filepath.Join(src, "d"), wh, filepath.Join(dst, "old-input"), other} {
+		os.MkdirAll(d, 0755)
+	}
+	os.Setenv("RIO_CACHE", filepath.Join(base, "cache"))
+	os.Setenv("RIO_BASE", filepath.Join(base, "riobase"))
+	os.WriteFile(filepath.Join(src, "d", "f"), []byte("ware"), 0644)
+	os.WriteFile(filepath.Join(src, "top"), []byte("top"), 0644)
+	os.WriteFile(filepath.Join(other, "kept"), []byte("kept"), 0644)
+	for _, p := range []string{"d/f", "d", "top", "."} { // whole seconds: what a tar header holds
+		os.Chtimes(filepath.Join(src, p), time.Unix(1e9, 0), time.Unix(1e9, 0))
+	}
+	ctx := context.Background()
+	id, err := tartrans.Pack(ctx, "tar", src, api.MustParseFilesetPackFilter(losslessPackStr), whAddr("ca", wh), rio.Monitor{})
+	c.EmitR(op, "skip", "skip")
+	if err != nil {
+		return
+	}
+	want, _ := Snapshot(src)
+	uf := api.MustParseFilesetUnpackFilter(losslessUnpackStr)
+	whs := []api.WarehouseLocation{whAddr("ca", wh)}
+	if temp == "warm" {
+		tartrans.Unpack(ctx, id, "-", uf, rio.Placement_None, whs, rio.Monitor{})
+	}
+	leftover := filepath.Join(dst, "old-input")
+	switch what {
+	case "mountpoint":
+		if syscall.Mount(other, leftover, "", syscall.MS_BIND, "") != nil {
+			c.H("place-busydest:skipped")
+			return
+		}
+		defer syscall.Unmount(leftover, syscall.MNT_DETACH)
+	case "immutable":
+		os.WriteFile(filepath.Join(leftover, "pinned"), []byte("x"), 0644)
+		fd, e := unix.Open(filepath.Join(leftover, "pinned"), unix.O_RDONLY, 0)
+		if e != nil {
+			return
+		}
+		e = unix.IoctlSetPointerInt(fd, 0x40086602, 0x10) // FS_IMMUTABLE_FL
+		unix.Close(fd)
+		if e != nil {
+			c.H("place-busydest:skipped")
+			return
+		}
+		defer func() {
+			if fd, e := unix.Open(filepath.Join(leftover, "pinned"), unix.O_RDONLY, 0); e == nil {
+				unix.IoctlSetPointerInt(fd, 0x40086602, 0)
+				unix.Close(fd)
+			}
+		}()
+	}
+	got, uerr, pan := safeCall(func() (api.WareID, error) {
+		return tartrans.Unpack(ctx, id, dst, uf, rio.PlacementMode(mode), whs, rio.Monitor{})
+	})
+	c.H("place-busydest:" + what + ":" + mode + ":" + temp + ":" + strings.Fields(resTok(got, uerr, pan))[0])
+	switch {
+	case pan != "":
+		c.PropFail("placement-failed", "placement onto a destination that holds a "+what+" panicked: "+pan, op)
+	case uerr == nil:
+		sn, _ := Snapshot(dst)
+		if sn.Digest(true) != want.Digest(true) {
+			extra := ""
+			for _, e := range sn {
+				if strings.HasPrefix(e.Name, "old-input") {
+					extra = e.Name
+					break
+				}
+			}
+			c.PropFail("placement-tree", fmt.Sprintf("placement (%s, %s cache) onto a destination holding a %s answered %s, but the destination does not show the ware's fileset (left over: %q; first difference: %s)", mode, temp, what, got, extra, firstDiff(want.Digest(true), sn.Digest(true))), op)
+		}
+	}
+	if mode == "mount" {
+		syscall.Unmount(dst, 0)
+	}
+	c.Distinct(op)
+}
+
 func placeEngine(c *Ctx) {
 	if ls := replayLines(); ls != nil {
 		for _, op := range ls {
@@ -615,6 +703,8 @@ func placeEngine(c *Ctx) {
 				placeSpecialRoot(c, op)
 			} else if strings.HasPrefix(op, "place-symlink ") {
 				placeSymlinkRoot(c, op)
+			} else if strings.HasPrefix(op, "place-busydest ") {
+				placeBusyDest(c, op)
 			}
 		}
 		return
@@ -626,6 +716,11 @@ func placeEngine(c *Ctx) {
 	placeSymlinkRoot(c, "place-symlink mount")
 	placeSymlinkRoot(c, "place-symlink bindro")
 	placeSymlinkRoot(c, "place-symlink aufs")
+	for _, w := range []string{"mountpoint", "immutable"} {
+		for _, m := range []string{"copy cold", "copy warm", "direct warm", "mount cold"} {
+			placeBusyDest(c, "place-busydest "+w+" "+m)
+		}
+	}
 	n, maxOps := 14, 10
 	if c.Tier == "thorough" {
 		n, maxOps = 200, 36
